@@ -22,7 +22,7 @@ ASSUMPTIONS = ["views compared to 1e-12 relative (same code on the same stored d
                "the stored definition is read through the uncached accessors (ctrlptsw / ctrlpts of non-rational shapes, knotvector, delta)"]
 
 SLUG_CONT = "C12-container-cache-vs-element-edit"
-VIEWS = ["ctrlpts", "weights", "ctrlpts2d", "evalpts", "bbox", "sample_size", "data", "tess", "single", "bezier", "tess_force"]
+VIEWS = ["ctrlpts", "weights", "ctrlpts2d", "evalpts", "bbox", "sample_size", "data", "tess", "single", "bezier", "tess_force", "tess_spacing"]
 
 
 # ------------------------------------------------------------------------------------------------ helpers
@@ -87,6 +87,15 @@ def read_view(obj, view):
     if view == "data":
         d = obj.data
         return {k: (list(map(list, d[k])) if k in ("control_points", "knotvector") else (list(d[k]) if isinstance(d[k], tuple) else d[k])) for k in d}
+    if view == "tess_spacing":
+        # re-tessellation on request with a different keyword of the component gives that mesh (whatever mesh existed before);
+        # the default mesh is put back afterwards so that the later plain reads see what a fresh object would
+        if pd != 2 or obj.dimension != 3:
+            return None
+        obj.tessellate(force=True, vertex_spacing=2)
+        out = [[v.id, list(v.uv), list(v.data)] for v in obj.vertices], [list(f.data) for f in obj.faces]
+        obj.tessellate(force=True)
+        return out
     if view in ("tess", "tess_force"):
         if pd != 2 or obj.dimension != 3:
             return None
